@@ -356,3 +356,16 @@ def entry_node_of(cfg, st):
         if not ns:
             raise AnalysisError(f'no CFG node for statement at line {getattr(st, "lineno", 0)}')
         return ns[0]
+
+
+def resolved_callee(f, call):
+    """dotted name of the callee with a local alias resolved one level: `rd = self._body.read; rd(n)` -> 'self._body.read'"""
+    d = dotted(call.func)
+    if isinstance(call.func, ast.Name) and f.rd.is_local(call.func.id):
+        ns = f.cfg.node_of_stmt(call)
+        if ns:
+            defs = f.rd.at(ns[0], call.func.id)
+            vals = {dotted(x.value) for x in defs if x.kind == 'assign' and x.value is not None and isinstance(x.value, (ast.Attribute, ast.Name))}
+            if len(vals) == 1 and None not in vals:
+                return vals.pop()
+    return d
